@@ -67,9 +67,29 @@ def f32mul (a b : Nat) : Nat :=
   let Eb := bif Nat.beq eb 0 then 1 else eb
   f32round (Ma * Mb) (Ea + Eb)
 
+/-- IEEE-754 binary32 sum (round-to-nearest-even) of two **finite, non-negative** operands given as bit
+patterns `< 0x7F800000`.  With the larger operand normal the exact sum `S` (an integer in units of the smaller
+operand's ulp) has its leading bit at one of two positions, so no logarithm is needed.
+Only used by the repaired packer `packRneC` (`in.real += 0.5f`). -/
+def f32add (a b : Nat) : Nat :=
+  let hi := bif Nat.ble a b then b else a
+  let lo := bif Nat.ble a b then a else b
+  let eh := hi >>> 23
+  bif Nat.beq eh 0 then hi + lo else            -- both subnormal or zero: exact, a carry lands in the exponent field
+  let el := lo >>> 23
+  let Mh := hi % 8388608 + 8388608
+  let Ml := bif Nat.beq el 0 then lo else lo % 8388608 + 8388608
+  let El := bif Nat.beq el 0 then 1 else el
+  let d := eh - El
+  let S := Mh <<< d + Ml                        -- exact sum = S · 2^(El-150),  2^(23+d) ≤ S < 2^(25+d)
+  let r := bif Nat.blt S (2 ^ (24 + d)) then (eh - 1) * 8388608 + rne S d
+           else eh * 8388608 + rne S (d + 1)
+  bif Nat.ble 2139095040 r then 2139095040 else r
+
 /-! ## the generated code, statement by statement -/
 
-/-- `nunavutFloat16Pack` (C) / `float16Pack` (C++) on the bit pattern `x < 2^32` of the argument. -/
+/-- `nunavutFloat16Pack` (C) / `float16Pack` (C++) **as shipped before the F14 repair** (ties round away from zero)
+on the bit pattern `x < 2^32` of the argument. -/
 def pack (x : Nat) : Nat :=
   let sign := x &&& 0x80000000                       -- in.bits & (1U << 31U)
   let a := x ^^^ sign                                -- in.bits ^= sign
@@ -84,6 +104,25 @@ def pack (x : Nat) : Nat :=
       let d := (c + 0x100000000 - 0xFFFFF000) % 0x100000000   -- in.bits -= round_mask  (uint32 wrap-around)
       let e := bif Nat.blt 0x0F800000 d then 0x0F800000 else d -- clamp to f16inf = 31 << 23
       (e >>> 13) % 0x10000                           -- (uint16_t)(in.bits >> 13U)
+  out ||| ((sign >>> 16) % 0x10000)                  -- out |= (uint16_t)(sign >> 16U)
+
+/-- The **repaired** `nunavutFloat16Pack` / `float16Pack` (round-to-nearest, ties-to-even; fix for F14,
+`agent_out/CODEC_HARNESS/fix_float16_ties_to_even.diff`), statement by statement on the bit pattern `x < 2^32`.
+`pack` above is the packer before that repair. -/
+def packRneC (x : Nat) : Nat :=
+  let sign := x &&& 0x80000000                       -- in.bits & (1U << 31U)
+  let a := x ^^^ sign                                -- in.bits ^= sign
+  let out :=
+    bif Nat.ble 0x47800000 a then                    -- if (in.bits >= f16max.bits)     f16max = (127+16) << 23
+      (bif Nat.blt 0x7F800000 a then 0x7E00 else 0x7C00)
+    else bif Nat.blt a 0x38800000 then               -- else if (in.bits < (113U << 23U))
+      let s := f32add a 0x3F000000                   -- in.real += denorm_magic.real    denorm_magic = 126 << 23 = 0.5f
+      ((s + 0x100000000 - 0x3F000000) % 0x100000000) % 0x10000   -- (uint16_t)(in.bits - denorm_magic.bits)
+    else
+      let odd := (a >>> 13) &&& 1                    -- mant_odd = (in.bits >> 13U) & 1U
+      let b := (a + 0x100000000 - 0x38000000) % 0x100000000      -- in.bits -= 112U << 23U
+      let c := (b + (0x0FFF + odd)) % 0x100000000    -- in.bits += 0x0FFFU + mant_odd
+      (c >>> 13) % 0x10000                           -- (uint16_t)(in.bits >> 13U)
   out ||| ((sign >>> 16) % 0x10000)                  -- out |= (uint16_t)(sign >> 16U)
 
 /-- `nunavutFloat16Unpack` (C) / `float16Unpack` (C++) on the bit pattern `h < 2^16`; result is the pattern of
